@@ -59,20 +59,61 @@ class Closure:
 
 
 class Env:
+    """A lexical scope. Definitions are kept in order, so that a closure can be given a view of the scope as it was when the
+    closure was created: a name declared later in the same scope is not visible to it (it refers to the outer binding)."""
     def __init__(self, parent=None):
-        self.vars = {}
-        self.parent = parent
+        self.order = []          # [(name, value)] in definition order
+        self.parent = parent     # Env or EnvView
 
     def lookup(self, name):
         e = self
         while e is not None:
-            if name in e.vars:
-                return e.vars[name]
+            v = e.find(name)
+            if v is not NOTFOUND:
+                return v
             e = e.parent
         raise NameError(name)
 
+    def find(self, name, limit=None):
+        order = self.order if limit is None else self.order[:limit]
+        for n, v in reversed(order):
+            if n == name:
+                return v
+        return NOTFOUND
+
     def define(self, name, value):
-        self.vars[name] = value
+        self.order.append((name, value))
+
+
+class _NotFound:
+    pass
+
+
+NOTFOUND = _NotFound()
+
+
+class EnvView:
+    """An Env frozen at a definition count, chained to frozen views of its ancestors."""
+    def __init__(self, env, limit, parent):
+        self.env, self.limit, self.parent = env, limit, parent
+
+    def find(self, name, limit=None):
+        return self.env.find(name, self.limit)
+
+    def lookup(self, name):
+        e = self
+        while e is not None:
+            v = e.find(name)
+            if v is not NOTFOUND:
+                return v
+            e = e.parent
+        raise NameError(name)
+
+
+def snapshot(e):
+    if e is None or isinstance(e, EnvView):
+        return e
+    return EnvView(e, len(e.order), snapshot(e.parent))
 
 
 def to_canon(v):
@@ -372,10 +413,10 @@ class Interp:
             name = x[1]
             i = 2
         params = x[i][1]
-        return Closure(name, params, x[i + 1:], env)
+        return Closure(name, params, x[i + 1:], snapshot(env))
 
     def sf_defn(self, x, env):
-        c = Closure(x[1], x[2][1], x[3:], env)
+        c = Closure(x[1], x[2][1], x[3:], snapshot(env))
         env.define(x[1], c)
         return c
 
